@@ -37,10 +37,41 @@ check("C20", "Bounded symbolic verification of the real to_dict/from_dict/__str_
       "json modelled as identity on plain data + strictness predicate, pandas by a list-backed stand-in (replays use the real modules); arrays <= 3x2.",
       "symbolic execution + SMT (z3 LRA with NaN/inf flags)", "DESIGN.md section 4 C20")
 
+check("C01", "Exactness decided in genuine IEEE binary64 (z3 QF_FP) on the real Model.__init__/shift_base/as_absolute_coordinates/xpt/xopt and on remove_scaling with the scaling record built by the real solve prologue: every point handed out in absolute coordinates lies in [xl,xu] with no tolerance (per coordinate; the code on this path is elementwise, so all n). Glue in real arithmetic: every x evaluated in one main-loop iteration from any state (STEP), in the run start incl. the coordinate initialisation (RUN-START) and the x0 handed to every run (OUTER) lies in the box.",
+      "|values| <= 1000 and <= 2 base shifts in the binary64 kernel (k shifts = same formula on a shifted state); NaN inputs excluded; glue harnesses: numerics stubbed by contracts, n=1..2.",
+      "symbolic execution + SMT (z3 QF_FP binary64 bit-precise; LRA+UF for the glue)", "DESIGN.md section 4 C01")
+check("C06", "PARTIAL. Decided by symbolic execution of the real ctrsbox_sfista / Controller.trust_region_step / evaluate_criticality_measure: h and prox_uh are called with the user's extra arguments unchanged (len 0..2) without TypeError; the box handed to the regularised subproblem is the true bound box in the coordinates of the point handed over; the step handed back never has a negative predicted reduction. NOT decided: the convergence clause (within 1e-3*(1+F*) and success).",
+      "Convergence over whole runs is out of reach of bounded symbolic execution (DESIGN section 6); S-FISTA loop cut to 2 iterations; n<=2.",
+      "symbolic execution + SMT (z3 LRA+UF / QF_NRA), argument-capturing stubs", "DESIGN.md section 4 C06")
+check("C08", "PARTIAL. Extended-real (NaN/+-inf flags) symbolic execution: one whole main-loop iteration from any state with a bad value possible at every evaluation of it (no exception from the real code unless opted in, a finite best value survives and never increases, success never with a non-finite objective), exception propagation from the objective (no further evaluation), the Model selection operations, the overflow guard. NOT decided: termination of a whole run under a fault; behaviour of LAPACK on non-finite data (contract: reported as failure).",
+      "Finite rounding/overflow not modelled; numerics stubbed by contracts; n=1, m=1.",
+      "symbolic execution + SMT (z3 LRA+UF with NaN/inf flags), fault as a symbolic input", "DESIGN.md section 4 C08")
+check("C09", "Provenance by symbolic execution: every x evaluated in one main-loop iteration with projections equals an output of the alternating projection over the model's projector list (box last); the real solve prologue appends the box projector last (= clip(lower,upper)), disables the internal bounds, projects x0 and starts from the projection; C15's stop-rule lemma (re-run for p = user sets + box) gives the sqrt(p*tol) distance and the binary64 pbox lemma the exact box.",
+      "dykstra stubbed by the contract proved in C15; one user projector; |x0|, |bounds| <= 1e15; n<=2 (3 thorough).",
+      "symbolic execution + SMT (z3 LRA+UF, QF_NRA, QF_FP), provenance of evaluated points", "DESIGN.md section 4 C09")
+check("C11", "PARTIAL. Semi-symbolic: on each member of a concrete point-geometry family the real fitting code (interpolate_mini_models_svd -> factorise/solve_geom_system) is executed with symbolic linear data r = A y - b and z3 shows J = A for all (A,b); evaluation numbers returned with a Jacobian are a fit-time snapshot of slots that carry their true numbers (STEP, RUN-START); solve un-scales the columns exactly once and keeps Jacobian and numbers of the same run (OUTER).",
+      "LAPACK QR of the concrete matrix trusted, triangular solve = exact substitution; tolerance 1e-7*|data| on a well-conditioned family stands for conditioning-scaled rounding (not decided in general); n<=3.",
+      "semi-symbolic execution + SMT (z3 LRA), ghost evaluation numbers", "DESIGN.md section 4 C11")
+check("C12", "QF_NRA symbolic execution of the real trsbox/alt_trust_step/d_within_bounds: n=1 with everything symbolic, n=2 semi-symbolic (concrete model family, symbolic box): step in the box, in the ball (1e-8), model not increased, gnew = g + H d, at least Cauchy decrease for every admissible steepest-descent length; binary64: the clipped point is exactly in the box.",
+      "Dimensions 3..8 outside the bound; n=2 members with curvature are explored under a budget and mostly inconclusive (rational expressions of growing degree); |g|^2 > 1e-18, Delta >= 1e-9 (code's absolute cut-offs return the zero step by design); monotonicity of IEEE rounding for d = xnew - xopt not decided.",
+      "symbolic execution + SMT (z3 QF_NRA with solver portfolio; QF_FP)", "DESIGN.md section 4 C12")
+check("C13", "QF_NRA symbolic execution of the real trsbox_linear/ball_step (feasibility + global optimality as an existential competitor query, everything symbolic), trsbox_geometry (choice logic over the proved contract: global maximum of |c+g.s|, never worse than not moving), pball, the projector-list structure of ctrsbox_pgd/sfista/linear/geometry (ball projected last with the right centre/radius, step = projection output - centre) and the zero-step rule of Controller.trust_region_step with a regulariser.",
+      "n<=2 (3 thorough); |g_i| = 0 or >= 1e-14 (ZERO_THRESH by design); loops of the convex solvers cut to 2 iterations; some n=2 optimality queries stay `unknown` within the time limit and are reported inconclusive.",
+      "symbolic execution + SMT (z3 QF_NRA, portfolio z3 4.8.12 / cvc5 1.4)", "DESIGN.md section 4 C13")
+check("C14", "Symbolic execution of the real initialise_coordinate_directions from the state solve_main builds (any x0 in any box with gap >= 2*rhobeg, any residual values): every evaluated point inside the box, 0.01..2 rhobeg from x0 along one coordinate, two distinct non-zero steps per coordinate; and of random_directions_within_bounds / random_orthog_directions_within_bounds / get_scale with the normal draws as arbitrary reals and the QR factor as an arbitrary orthonormal matrix: requested count, inside the bounds, no longer than delta.",
+      "n<=2 (3 thorough), npt<=2n+1 (+off-diagonal points thorough); condition number < 1e4 follows on paper from the proved step inequalities, not a solver result.",
+      "symbolic execution + SMT (z3 LRA+UF; QF_NRA for the generators)", "DESIGN.md section 4 C14")
+check("C16", "PARTIAL. Semi-symbolic (concrete geometry family, symbolic data): the real fitting code satisfies the interpolation equations (npt = n+1 and growing npt < n+1) and the normal equations (npt > n+1) for ALL data; fully symbolic QF_NRA: base shifts leave the assembled gradient and Hessian unchanged (model values at fixed absolute points: C17 harness).",
+      "Lagrange identities are concrete evaluations and not claimed; rounding proportional to conditioning not decided; LAPACK QR trusted; n<=3.",
+      "semi-symbolic execution + SMT (z3 LRA), QF_NRA identities", "DESIGN.md section 4 C16")
+check("C19", "Ownership-tracking symbolic execution of the real solve prologue / restart loop / packaging on caller-owned arrays: no in-place write reaches x0, the bound arrays, user_params, the projections list or a mutable default; RNG-reachability obligations in one main-loop iteration (STEP), the run start (RUN-START) and the projections initialisation: random generators are reached/used only when an option documented as random is on.",
+      "Bit-identical repetition follows from 'no RNG and no hidden state' for the remaining pure code (not separately executed twice); n<=2.",
+      "symbolic execution + SMT (z3), ownership tags on the array model", "DESIGN.md section 4 C19")
+
 NA = [
  ("C05", "convergence of whole runs (tens to hundreds of iterations through LAPACK QR/SVD until rho = rhoend) is out of reach of bounded symbolic execution; the solver-sized ingredients are checked under C12, C16, C18, C10 (DESIGN.md section 6)"),
 ]
-PENDING = ["C01", "C06", "C08", "C09", "C11", "C12", "C13", "C14", "C16", "C19"]
+PENDING = []
 
 def main():
     have = sorted(k for k in C if os.path.exists(os.path.join(HERE, 'dfverif', 'checks', k.lower() + '.py')))
